@@ -5,6 +5,7 @@ id: C03.sflags.header_decode
 props: C03 C04 C05
 entry: h_sh_dec
 enforce: w_sh_dec
+replace: lzma_crc32
 unwind: 9
 fn: lzma_stream_header_decode lzma_crc32
 sentinels: 4
@@ -16,6 +17,7 @@ id: C03.sflags.footer_decode
 props: C03 C04 C05
 entry: h_sf_dec
 enforce: w_sf_dec
+replace: lzma_crc32
 unwind: 9
 fn: lzma_stream_footer_decode lzma_crc32
 sentinels: 4
@@ -27,6 +29,7 @@ id: C02.sflags.header_encode
 props: C02 C04 C06
 entry: h_sh_enc
 enforce: w_sh_enc
+replace: lzma_crc32
 unwind: 9
 fn: lzma_stream_header_encode lzma_crc32
 sentinels: 3
@@ -38,6 +41,7 @@ id: C02.sflags.footer_encode
 props: C02 C04 C06
 entry: h_sf_enc
 enforce: w_sf_enc
+replace: lzma_crc32
 unwind: 9
 fn: lzma_stream_footer_encode lzma_crc32
 sentinels: 3
@@ -48,6 +52,8 @@ desc: lzma_stream_footer_encode: rejects version!=0, backward_size not in {4..2^
 id: C05.flip.stream_header
 props: C05 C03
 entry: h_sh_flip
+replace: lzma_crc32
+solver: cadical
 unwind: 9
 fn: lzma_stream_header_decode
 sentinels: 1
@@ -58,11 +64,13 @@ desc: for EVERY 12-byte buffer accepted by lzma_stream_header_decode and EVERY b
 id: C05.flip.stream_footer
 props: C05 C03
 entry: h_sf_flip
+replace: lzma_crc32
+solver: cadical
 unwind: 9
 fn: lzma_stream_footer_decode
 sentinels: 1
 expect: 5
-timeout: 900
+timeout: 300
 desc: for EVERY 12-byte buffer accepted by lzma_stream_footer_decode and EVERY bit k<96, the flipped buffer is rejected or (never happens) decodes to different flags -- it is never accepted with the same meaning
 */
 /*@obligation
@@ -79,7 +87,7 @@ desc: lzma_stream_flags_compare: OK iff both version 0, checks equal and <=15, a
 #include "verif.h"
 #include "spec_xz.h"
 #include "liblzma/common/common.h"
-#include "liblzma/check/crc32_fast.c"
+#include "contract_crc.h" /* lzma_crc32 is used through its contract (enforced in harness/crc.c) */
 #include "liblzma/common/stream_flags_common.c"
 #include "liblzma/common/stream_flags_encoder.c"
 #include "liblzma/common/stream_flags_decoder.c"
